@@ -184,7 +184,25 @@ Section Unfold2.
       end).
   Proof. reflexivity. Qed.
 
+  (* ---- slices ---- *)
+  Definition opt_eval (f : nat) (o : option expr) (st0 : state) : res (option value * state) :=
+    match o with None => Ok (None, st0) | Some e => rbind (EE f e st0) (fun '(v, st') => Ok (Some v, st')) end.
+  Lemma eval_vexpr_S_slice : forall f b lo hi st,
+    EV (S f) (XSlice b lo hi) st =
+    rbind (EV f b st) (fun '(obj, st1) => rbind (opt_eval f lo st1) (fun '(lov, st2) => rbind (opt_eval f hi st2) (fun '(hiv, st3) =>
+      vslice d st3 obj lov hiv))).
+  Proof. reflexivity. Qed.
+
   (* ---- statements ---- *)
+  Lemma exec_stmt_S_unpack : forall f names e st,
+    XS (S f) (SUnpack names e) st =
+    rbind (EE f e st) (fun '(v, st1) =>
+      match names with
+      | [] | [_] => Err EUnsupported
+      | _ => rbind (unpack_names d names v st1) (fun st2 => Ok (RNone, st2))
+      end).
+  Proof. reflexivity. Qed.
+
   Definition for_loop2 (f : nat) (names : list str) (body : list stmt) : list value -> state -> res (sres * state) :=
     fix go (l : list value) (st0 : state) : res (sres * state) :=
     match l with
